@@ -9,7 +9,7 @@ import logging
 from typing import Any
 
 import numpy as np
-from scipy.linalg import eig
+from scipy.linalg import schur
 from scipy.linalg import svd
 
 from bqskit.compiler.basepass import BasePass
@@ -239,7 +239,11 @@ class BlockZXZPass(BasePass):
 
         # We can find V,D^2 by performing an eigen decomposition of
         # U_1 @ U_2†
-        d2, V = eig(U_1 @ U_2.conj().T)
+        # U_1 @ U_2† is unitary, so its complex Schur form is diagonal and V
+        # is unitary even when eigenvalues repeat (eig's vectors are not
+        # orthogonal inside a degenerate eigenspace).
+        T, V = schur(U_1 @ U_2.conj().T, output='complex')
+        d2 = np.diag(T)
         d = np.sqrt(d2)
         D = np.diag(d)
 
